@@ -172,7 +172,37 @@ class Evaluator(object):
             return path.env[node.id]
         if node.id == "Ellipsis":
             return form.apply("str:Ellipsis", [])          # the same value as the literal `...`
+        mc = self._module_constant(node.id, path)
+        if mc is not None:
+            return mc
         return Rat.sym(node.id)
+
+    def _is_module_table(self, node):
+        return isinstance(node, ast.Name) and self.__dict__.get("_modconst", {}).get(node.id) is not None
+
+    def _module_constant(self, name, path):
+        """NAME = <literal> at module level, assigned exactly once and never rebound in a function with `global`: a table such as
+        CLIM_OPTIONS = {"-c": "subtract", "-C": "divide"} is read by value."""
+        assigns = getattr(self.module, "assigns", None)
+        tree = getattr(self.module, "tree", None)
+        if tree is None or not name.isupper() and not (name.startswith("_") and name[1:].replace("_", "").isupper()):
+            return None
+        cache = self.__dict__.setdefault("_modconst", {})
+        if name in cache:
+            return cache[name]
+        cache[name] = None
+        defs = [st for st in tree.body if isinstance(st, ast.Assign) and any(isinstance(t, ast.Name) and t.id == name for t in st.targets)]
+        if len(defs) != 1 or any(isinstance(n, ast.Global) and name in n.names for n in ast.walk(tree)):
+            return None
+        try:
+            ast.literal_eval(defs[0].value)
+        except (ValueError, SyntaxError, TypeError, MemoryError, RecursionError):
+            return None
+        v = self.ev(defs[0].value, Path({}, []))
+        if isinstance(v, list) and all(isinstance(x, Rat) for x in v):
+            v = form.apply("pylist", [tuple(v)])
+        cache[name] = v if isinstance(v, Rat) else None
+        return cache[name]
 
     def ev_Attribute(self, node, path):
         d = dotted(node)
@@ -253,6 +283,12 @@ class Evaluator(object):
         parts = []
         for op, comp in zip(node.ops, node.comparators):
             right = self.ev(comp, path)
+            if isinstance(op, (ast.In, ast.NotIn)) and isinstance(right, Rat) and isinstance(left, Rat):
+                ra_ = right.as_atom()
+                if ra_ is not None and ra_.func == "pydict" and ra_.args and isinstance(ra_.args[0], tuple):
+                    right = list(ra_.args[0][0::2])
+                elif ra_ is not None and ra_.func == "pylist" and ra_.args and isinstance(ra_.args[0], tuple) and self._is_module_table(comp):
+                    right = list(ra_.args[0])
             if isinstance(op, (ast.In, ast.NotIn)) and isinstance(right, list) and isinstance(left, Rat):
                 la = left.as_atom()
                 if la is not None and la.func.startswith("str:") and all(
@@ -323,6 +359,21 @@ class Evaluator(object):
                 return form.apply("getitem", [tuple(base), idx])
             return self._opaque(node, path)
         at = base.as_atom() if isinstance(base, Rat) else None
+        if at is not None and at.func == "pydict" and isinstance(idx, Rat) and at.args and isinstance(at.args[0], tuple):
+            flat = at.args[0]
+            keys, vals = flat[0::2], flat[1::2]
+            def _ck(r):
+                return r.key() if isinstance(r, Rat) and (r.const_value() is not None or _strval(r) is not None) else None
+            if _ck(idx) is not None and all(_ck(k) is not None for k in keys):
+                for k, v_ in zip(keys, vals):
+                    if _ck(k) == _ck(idx):
+                        return v_
+        if at is not None and at.func.startswith("str:") and not at.args and isinstance(idx, Rat) and idx.const_value() is not None:
+            sv = _strval(base)
+            try:
+                return form.apply("str:" + repr(sv[int(idx.const_value())]), [])          # 'abc'[0] is 'a'
+            except (IndexError, TypeError, ValueError):
+                pass
         if at is not None and at.func == "corrcoef" and isinstance(idx, tuple) and len(idx) == 2:
             iv = [i.const_value() if isinstance(i, Rat) else None for i in idx]
             if sorted(iv) == [0, 1]:
@@ -636,17 +687,30 @@ class Evaluator(object):
             seq = form.apply("pylist", [tuple(seq)]) if all(isinstance(x, Rat) for x in seq) else None
         if not isinstance(seq, Rat):
             return self._opaque(node, path)
+        # a comprehension over a comprehension is one comprehension: [h(x) for x in [g(a) for a in A]] is [h(g(a)) for a in A]
+        inner_conds = []
+        elem_value = None
+        sm = seq.as_atom("map")
+        if sm is not None and len(sm.args) >= 2 and isinstance(g.target, ast.Name) and all(isinstance(a, Rat) for a in sm.args):
+            elem_value, seq, inner_conds = sm.args[0], sm.args[1], list(sm.args[2:])
+        elif sm is not None and len(sm.args) >= 2 and isinstance(g.target, (ast.Tuple, ast.List)) and all(isinstance(a, Rat) for a in sm.args):
+            pl_ = sm.args[0].as_atom("pylist")
+            comps_ = pl_.args[0] if pl_ is not None and pl_.args and isinstance(pl_.args[0], tuple) else None
+            if comps_ is not None and len(comps_) == len(g.target.elts) and all(isinstance(c, Rat) for c in comps_):
+                elem_value, seq, inner_conds = list(comps_), sm.args[1], list(sm.args[2:])
         saved = dict(path.env)
         rec = self.record
         self.record = False
         try:
-            self.assign(g.target, _loop_value_comp(g.target, seq), path)
+            self.assign(g.target, elem_value if elem_value is not None else _loop_value_comp(g.target, seq), path)
             body = self.ev(node.elt, path)
-            conds = [self.ev(c, path) for c in g.ifs]
+            conds = inner_conds + [self.ev(c, path) for c in g.ifs]
         finally:
             path.env.clear()
             path.env.update(saved)
             self.record = rec
+        if isinstance(body, list) and body and all(isinstance(x, Rat) for x in body):
+            body = form.apply("pylist", [tuple(body)])          # [(a, b) for ...]: the element is the pair
         if not isinstance(body, Rat) or not all(isinstance(c, Rat) for c in conds):
             return self._opaque(node, path)
         return form.apply("map", [body, seq] + conds)
@@ -1195,6 +1259,19 @@ def _loop_value(st, it, tag=""):
     if at is not None and at.func == "call:zip" and isinstance(st.target, (ast.Tuple, ast.List)) and len(st.target.elts) == len(at.args) \
             and all(isinstance(a, Rat) for a in at.args) and all(isinstance(e_, ast.Name) for e_ in st.target.elts):
         return [form.apply("elem" + tag, [a]) for a in at.args]
+    if at is not None and at.func == "map" and len(at.args) == 2 and isinstance(st.target, (ast.Tuple, ast.List)) \
+            and isinstance(at.args[0], Rat) and isinstance(at.args[1], Rat):
+        # for a, b in [(f(x), g(x)) for x in S]: a and b are f and g of the same generic element of S
+        pl = at.args[0].as_atom("pylist")
+        comps = pl.args[0] if pl is not None and pl.args and isinstance(pl.args[0], tuple) else None
+        if comps is not None and len(comps) == len(st.target.elts) and all(isinstance(c, Rat) for c in comps):
+            sa = at.args[1].as_atom()
+            if not tag:
+                return list(comps)
+            if sa is None or sa.func != "call:range":
+                gen = form.apply("elem", [at.args[1]]).as_atom()
+                rep = form.apply("elem" + tag, [at.args[1]])
+                return [form.map_atoms(c, lambda a_: rep if a_ is gen else None) for c in comps]
     if at is not None and at.func != "call:range" and isinstance(st.target, ast.Name):
         return form.apply("elem" + tag, [it])
     return mk(st.target)
